@@ -37,7 +37,7 @@ package rfc3962
 //@   pure
 //@   trusted_frame returned slices are not tracked as fresh; in-place append into spare capacity cannot be excluded
 //@   requires tagof(e) == typeid("crypto.Aes128CtsHmacSha96") || tagof(e) == typeid("crypto.Aes256CtsHmacSha96")
-//@   ensures err == nil ==> len(lastRandom) == et_confounder(tagof(e)) && bytes(ct) == enc_3961(tagof(e), bytes(key), usage, seqcat(lastRandom, bytes(message)))
+//@   ensures err == nil ==> len(lastRandom) == et_confounder(tagof(e)) && bytes(ct) == enc_3961(tagof(e), old(bytes(key)), usage, seqcat(lastRandom, old(bytes(message))))
 //@ func crypto/rfc3961.VerifyIntegrity(key, ct, pt, usage, e) (ok)
 //@   pure
 //@   requires et_known(tagof(e))
